@@ -48,7 +48,12 @@ def shard(shard_no, nshards, seed, tier, extra):
     res = common.Result()
     rng = common.rng_for(seed, "c06", shard_no)
     table = keccak.slot_hash_table()
-    B = evm.boundary_constants() + sorted(table)[:6]
+    inv = {v: k for k, v in table.items()}
+    # both sides of the exemption's boundary: hashes of the last exempt slot numbers, of the first non-exempt ones, and
+    # their neighbours
+    edge = [inv[0], inv[1], inv[9998], inv[9999]] + [keccak.keccak_words(i) for i in (10000, 10001, 12345, 65536, 1 << 64)]
+    edge += [(h + dlt) & evm.M256 for h in (inv[9999], keccak.keccak_words(10000)) for dlt in (1, -1)]
+    B = evm.boundary_constants() + sorted(table)[:6] + edge + edge
     n = 330 if tier == "quick" else 18000
     d = common.Driver("rel", shim=False)
     contracts = common.corpus_codes(4000 if tier == "quick" else None)
@@ -85,7 +90,7 @@ def run(tier, seed, t0):
     return common.finish(
         PROP, tier, seed, res, "exploration",
         "programs doing SLOAD/SSTORE with literal keys from the boundary set (0, small, >=2^64, >=2^128, 2^256-1, "
-        "EIP-1967 constants, keccak(i) for small i) and random words, read-only / write-only / mixed, on the first "
+        "EIP-1967 constants, keccak(i) for small i and for i on both sides of the 10000 boundary) and random words, read-only / write-only / mixed, on the first "
         "path, behind symbolic and constant forks, in threads that afterwards die of stack underflow, invalid or "
         "symbolic jumps, INVALID, REVERT or SELFDESTRUCT, amid value-growing noise; value size limit 1..250, small "
         "iteration/fork limits; permissive mode. distinct = (bytecode, config); non-trivial = at least one literal-key "
